@@ -768,8 +768,8 @@ type tierCfg struct {
 const swarmBatch = 25
 
 var tiers = map[string]tierCfg{
-	"quick":    {coldJobs: 3, swarm: 1500, detSeeds: 8, stallLimit: 90 * time.Second},
-	"thorough": {coldJobs: 1, swarm: 100000, detSeeds: 32, stallLimit: 180 * time.Second},
+	"quick":    {coldJobs: 3, swarm: 1500, detSeeds: 8, stallLimit: 240 * time.Second},
+	"thorough": {coldJobs: 1, swarm: 100000, detSeeds: 32, stallLimit: 420 * time.Second},
 }
 
 func seedFromEnv() uint64 {
